@@ -22,6 +22,8 @@ func TestMain(m *testing.M) {
 		fmt.Printf("DISTINCT %d\n", n)
 		os.Exit(0)
 	}
+	// a multi-line environment variable: documents of C04/C20 mention it, and no entry point may expand it
+	os.Setenv("VERIF_NL", "line1\nline2\nline3")
 	code := m.Run()
 	CleanupScratch()
 	DumpStats()
